@@ -1,7 +1,7 @@
 //! Independent FAT reader and structural checker. Operates on raw images only;
 //! uses no type or constant of the crate under test.
 
-use crate::mkfs::Layout;
+pub use crate::mkfs::Layout;
 use crate::simdisk::{is_stale_name, Img};
 use std::collections::{BTreeSet, HashMap};
 
